@@ -222,6 +222,23 @@ fn sim_err() -> Error {
 pub struct Shared {
     pub world: W,
     pub pipes: Mutex<Vec<St>>,
+    /// back-end calls that are being waited for right now (a call whose future was dropped no longer counts)
+    pub in_flight: std::sync::atomic::AtomicI64,
+}
+
+struct Flight(Sh);
+
+impl Flight {
+    fn new(sh: &Sh) -> Self {
+        sh.in_flight.fetch_add(1, Ordering::SeqCst);
+        Flight(sh.clone())
+    }
+}
+
+impl Drop for Flight {
+    fn drop(&mut self) {
+        self.0.in_flight.fetch_sub(1, Ordering::SeqCst);
+    }
 }
 
 pub type Sh = Arc<Shared>;
@@ -230,10 +247,12 @@ pub fn shared(world: &W) -> Sh {
     Arc::new(Shared {
         world: world.clone(),
         pipes: Mutex::new(Vec::new()),
+        in_flight: std::sync::atomic::AtomicI64::new(0),
     })
 }
 
 async fn wait(sh: &Sh, name: &str, idx: u64, lat: Option<u64>) {
+    let _flight = Flight::new(sh);
     match lat {
         Some(0) => {}
         Some(ns) => tokio::time::sleep(Duration::from_nanos(ns)).await,
